@@ -77,6 +77,7 @@ fn main() {
             "C09" => monitors::c09::replay(&args, &case, &mut rep),
             "C10" => monitors::c10::replay(&case, &mut rep),
             "C11" => monitors::c11::replay(&case, &mut rep),
+            "C12" => monitors::c12::replay(&args, &case, &mut rep),
             "C13" => monitors::c13::replay(&args, &case, &mut rep),
             "C14" => monitors::c14::replay(&case, &mut rep),
             "C15" => monitors::c15::replay(&case, &mut rep),
@@ -99,6 +100,7 @@ fn main() {
             "C09" => monitors::c09::run(&args, &mut rep),
             "C10" => monitors::c10::run(&args, &mut rep),
             "C11" => monitors::c11::run(&args, &mut rep),
+            "C12" => monitors::c12::run(&args, &mut rep),
             "C13" => monitors::c13::run(&args, &mut rep),
             "C14" => monitors::c14::run(&args, &mut rep),
             "C15" => monitors::c15::run(&args, &mut rep),
